@@ -16,7 +16,8 @@ each kind of operation named in the property executable:
   at every grid level with the 'next' rule, then the constructor's `left_right_switch`;
 * `nearestIdx` / `alphaCut` — `Pbox.alpha_cut`: the cut index depends on the level only;
 * `slicing` — `propagation.mixed_up.slicing(..., interval_strategy="direct")`: meshgrid of levels,
-  one alpha-cut per variable, the response expression in interval arithmetic, `stacking`.
+  one alpha-cut per variable, the response expression in interval arithmetic, `stacking`;
+* `imc` — `interval_monte_carlo` given the rows of levels its dependency object drew.
 
 `ivSub`, `leL`, `pbSub` are the containment relations the theorems are about.
 -/
@@ -209,16 +210,27 @@ def asIvl : Arith.Opd → Except Err (Rat × Rat)
 def cutBox (pv : List Rat) (vars : List PBox.PB) (row : List Rat) : Except Err (List (Rat × Rat)) :=
   (vars.zip row).mapM (fun va => alphaCut pv va.1 va.2)
 
-/-- the focal intervals `slicing` hands to `stacking` -/
-def sliceImages (pv levels : List Rat) (t : ITree) (vars : List PBox.PB) : Except Err (List (Rat × Rat)) :=
-  (prodL (List.replicate vars.length levels)).mapM (fun row => do
+/-- one image interval per row of probability levels (the loop shared by `slicing` and `interval_monte_carlo`) -/
+def rowImages (pv : List Rat) (rows : List (List Rat)) (t : ITree) (vars : List PBox.PB) :
+    Except Err (List (Rat × Rat)) :=
+  rows.mapM (fun row => do
     let box ← cutBox pv vars row
     let v ← t.eval box
     asIvl v)
 
+/-- the focal intervals `slicing` hands to `stacking` -/
+def sliceImages (pv levels : List Rat) (t : ITree) (vars : List PBox.PB) : Except Err (List (Rat × Rat)) :=
+  rowImages pv (prodL (List.replicate vars.length levels)) t vars
+
 /-- `slicing(vars, func, n_slices=levels.length, interval_strategy="direct")`; `w` is the float `1/N` -/
 def slicing (pv levels : List Rat) (t : ITree) (vars : List PBox.PB) (w : Rat) : Except Err PBox.PB := do
   let im ← sliceImages pv levels t vars
+  stacking pv (im.map Prod.fst) (im.map Prod.snd) (List.replicate im.length w)
+
+/-- `interval_monte_carlo(vars, func, "direct", n_sam, dependency)` given the level rows the dependency object drew
+(`dependency.u_sample(n_sam, random_state)`): the rows are an INPUT, the same for every run of a pair -/
+def imc (pv : List Rat) (rows : List (List Rat)) (t : ITree) (vars : List PBox.PB) (w : Rat) : Except Err PBox.PB := do
+  let im ← rowImages pv rows t vars
   stacking pv (im.map Prod.fst) (im.map Prod.snd) (List.replicate im.length w)
 
 end Pun.Iso
